@@ -45,7 +45,7 @@ type advEntry struct {
 func (s *c01) Build(w *World) {
 	t := w.Tape
 	drawProfile(w)
-	s.dag = GenDAG(t, GenCfg{MaxBlocks: 3 + t.Draw(14), MaxDepth: 2 + t.Draw(4), BlockPad: []int{0, 0, 30}[t.Draw(3)], Share: []int{0, 100, 300}[t.Draw(3)], Empty: []int{0, 0, 80}[t.Draw(3)]})
+	s.dag = GenDAG(t, GenCfg{MaxBlocks: 3 + t.Draw(14), MaxDepth: 2 + t.Draw(4), BlockPad: []int{0, 0, 30}[t.Draw(3)], Share: []int{0, 100, 300}[t.Draw(3)], Empty: []int{0, 0, 80}[t.Draw(3)], Alias: []int{0, 0, 100}[t.Draw(3)]})
 	s.other = GenDAG(t, GenCfg{MaxBlocks: 3 + t.Draw(5), MaxDepth: 2, BlockPad: 77})
 	s.sel, s.selDesc = AllSelector(int64(2+t.Draw(8))), "all"
 	if t.Chance(300) {
